@@ -54,7 +54,7 @@ def tospH : Handler := fun j => do
   if strides.length ≠ bounds.length ∨ relevant.length ≠ bounds.length then
     throw "strides / bounds / relevant differ in length: outside the model"
   let it := accessIter strides bounds relevant
-  let r := toStridePattern it dims bc
+  let r := toStridePatternEl el it dims bc
   let sched := if want && small (schedLoops el it) then streamToJson (schedStream el it k) else Json.null
   let hw := match r with
     | .ok x => if want && small (hwLoops dims x.pat) then streamToJson (hwStream dims x.pat) else Json.null
@@ -142,7 +142,7 @@ def convAll (bounds : List Nat) : List (OpArgs × List Int) → Except String (L
     | some e => .error e       -- `AffineTransform.from_affine_map(op.patterns.data[operand].data)` at the top of the loop body
     | none =>
       let it := accessIter s bounds o.relevant
-      match toStridePattern it o.dims o.bc with
+      match toStridePatternEl o.el it o.dims o.bc with
       | .error e => .error (errName e)
       | .ok x => (convAll bounds r).map fun l => (x, it, o) :: l
 
